@@ -17,7 +17,7 @@ def run(check):
     import random
     import storm
     import puppet
-    runs = usimrun.explore(check, None, CONFIGS, invariants=INV, limit=15000 if check.tier == 'quick' else None)
+    runs = usimrun.explore(check, None, CONFIGS, invariants=INV, limit=15000 if check.tier == 'quick' else 250000)
     # beyond TLC's bounds: seeded random programs with many activities, float dates, many pending dates,
     # non-zero start times; dates are mapped to ranks, the expected resume date is computed by the harness
     rng = random.Random(check.seed)
@@ -29,3 +29,5 @@ def run(check):
         runs.append((p, storm.rankify(log), len(p['roots'])))
     check.extra['storm_programs'] = n
     usimrun.judge(check, OBS, runs)
+    # kernel level: the Loop's own scheduling decisions (repository test suite + random programs) against ObsK
+    usimrun.judge_kernel(check, usimrun.kernel_traces(check, 300 if check.tier == 'quick' else 5000), 'C01.')
